@@ -31,7 +31,9 @@ def judge_linear_ticks(a, b, m_eff, ticks, texts=None):
     n = len(ticks)
     if not (math.floor(0.57 * m_eff) <= n <= 1.43 * m_eff + 1):
         probs.append("count %d outside [floor(0.57m)=%d, 1.43m+1=%.2f]" % (n, math.floor(0.57 * m_eff), 1.43 * m_eff + 1))
-    eps = 1e-9 * span
+    # "up to floating-point effects at the two ends": the ticks are produced by repeated addition of the step, which can
+    # accumulate half a unit in the last place of the end points per tick - far below the step on the claimed domain
+    eps = max(1e-9 * span, n * math.ulp(max(abs(lo), abs(hi))))
     for t in ticks:
         if not (lo - eps <= t <= hi + eps):
             probs.append("tick %r outside the domain [%r, %r]" % (t, lo, hi))
